@@ -172,17 +172,38 @@ impl<'tcx> Cx<'tcx> {
                 .unwrap_or_default();
             return format!("{}::{}", self.path(parent), last);
         }
-        let s = ty::print::with_crate_prefix!(ty::print::with_no_trimmed_paths!(
-            self.tcx.def_path_str(did)
-        ));
+        // items of the other workspace crate: print the defining path, not the path they are re-exported
+        // under (`capsule::capsules::X` vs `capsule::close_wt_session::X`), so that cross-crate call edges resolve
+        let s = if self.is_foreign_workspace(did) {
+            ty::print::with_crate_prefix!(ty::print::with_no_trimmed_paths!(
+                ty::print::with_no_visible_paths!(self.tcx.def_path_str(did))
+            ))
+        } else {
+            ty::print::with_crate_prefix!(ty::print::with_no_trimmed_paths!(self.tcx.def_path_str(did)))
+        };
         let s = strip_generics(&s);
         self.norm(&s)
     }
 
+    pub fn is_foreign_workspace(&self, did: DefId) -> bool {
+        if did.is_local() {
+            return false;
+        }
+        let cn = self.tcx.crate_name(did.krate);
+        let cn = cn.as_str();
+        cn == "wtransport_proto" || cn == "wtransport"
+    }
+
     pub fn path_with_args(&self, did: DefId, args: GenericArgsRef<'tcx>) -> String {
-        let s = ty::print::with_crate_prefix!(ty::print::with_no_trimmed_paths!(
-            self.tcx.def_path_str_with_args(did, args)
-        ));
+        let s = if self.is_foreign_workspace(did) {
+            ty::print::with_crate_prefix!(ty::print::with_no_trimmed_paths!(
+                ty::print::with_no_visible_paths!(self.tcx.def_path_str_with_args(did, args))
+            ))
+        } else {
+            ty::print::with_crate_prefix!(ty::print::with_no_trimmed_paths!(
+                self.tcx.def_path_str_with_args(did, args)
+            ))
+        };
         self.norm(&s)
     }
 
